@@ -5,7 +5,36 @@
 //    VERIF_K        number of named rules node<0..K-1>          (default 4)
 //    VERIF_GROUPS   bit mask of operator groups to instantiate  (default G_CORE)
 #pragma once
+#include <cstddef>
+
+// observation hooks of /repo (guard TAO_PEGTL_VERIF): out-of-window peeks and bumps
+inline int verif_c03 = 0;
+inline const char* verif_c03_what = "";
+inline void verif_peek( const char* cur, std::size_t off, const char* end ) noexcept
+{
+   if( cur > end || std::size_t( end - cur ) <= off ) {
+      ++verif_c03;
+      verif_c03_what = "peek_char at or beyond the end of the input window";
+   }
+}
+inline void verif_bump( const char* cur, std::size_t n, const char* end ) noexcept
+{
+   if( cur > end || std::size_t( end - cur ) < n ) {
+      ++verif_c03;
+      verif_c03_what = "cursor bumped beyond the end of the input window";
+   }
+}
+#define TAO_PEGTL_VERIF_PEEK( c, o, e ) ::verif_peek( c, o, e )
+#define TAO_PEGTL_VERIF_BUMP( c, n, e ) ::verif_bump( c, n, e )
+
 #include <tao/pegtl.hpp>
+#include <tao/pegtl/contrib/if_then.hpp>
+#include <tao/pegtl/contrib/integer.hpp>
+#include <tao/pegtl/contrib/predicates.hpp>
+#include <tao/pegtl/contrib/raw_string.hpp>
+#include <tao/pegtl/contrib/rep_one_min_max.hpp>
+#include <tao/pegtl/contrib/rep_string.hpp>
+#include <tao/pegtl/contrib/separated_seq.hpp>
 
 #include <array>
 #include <cstdint>
@@ -41,7 +70,9 @@ namespace T
       G_CONV3 = 256,   // three-argument convenience rules
       G_HOLE = 512,
       G_POS = 1024,    // newline-capable atoms for the position oracle (C06)
-      G_BOL = 2048     // bol needs in.column(), which lazy inputs do not have
+      G_BOL = 2048,    // bol needs in.column(), which lazy inputs do not have
+      G_ATOM3 = 4096,  // ascii convenience atoms (keyword identifier shebang two three forty_two ranges rep_string rep_one_min_max)
+      G_CONTRIB = 8192 // contrib: integer rules, raw_string, predicates, separated_seq, if_then
    };
 #ifndef VERIF_GROUPS
 #define VERIF_GROUPS ( T::G_CORE | T::G_HOLE )
@@ -338,6 +369,12 @@ namespace T
 
    struct raise_msg : p::raise_message< 'r', 'm', 's', 'g' >
    {};
+   // clang-format off
+   template< typename A, typename B, typename C > using w_separated_seq = p::separated_seq< A, B, C >;
+   template< typename A, typename B, typename C > using w_if_then_else_then = typename p::if_then< A, B >::template else_then< C >;
+   template< typename A, typename B > using w_if_then = p::if_then< A, B >;
+   using raw_t = p::raw_string< '[', '=', ']' >;
+   // clang-format on
 
    // X-macro list:  A0( NAME, group, rule type )   U1/B2/T3( NAME, group, wrapper template )
 #define VERIF_OPLIST( A0, U1, B2, T3 ) \
@@ -364,6 +401,29 @@ namespace T
    A0( SEVEN, G_POS, ( p::seven ) ) \
    A0( NOT_ONE_LF, G_POS, ( p::not_one< '\n' > ) ) \
    A0( UTF8_ANY, G_POS, ( p::utf8::any ) ) \
+   A0( KEYWORD_AB, G_ATOM3, ( p::keyword< 'a', 'b' > ) ) \
+   A0( IDENTIFIER, G_ATOM3, ( p::identifier ) ) \
+   A0( SHEBANG, G_ATOM3, ( p::shebang ) ) \
+   A0( TWO_A, G_ATOM3, ( p::two< 'a' > ) ) \
+   A0( THREE_A, G_ATOM3, ( p::three< 'a' > ) ) \
+   A0( FORTY_TWO_A, G_ATOM3, ( p::forty_two< 'a' > ) ) \
+   A0( RANGES_ACX, G_ATOM3, ( p::ranges< 'a', 'c', 'x' > ) ) \
+   A0( REP_STRING2_AB, G_ATOM3, ( p::rep_string< 2, 'a', 'b' > ) ) \
+   A0( ROMM12_A, G_ATOM3, ( p::rep_one_min_max< 1, 2, 'a' > ) ) \
+   A0( ROMM02_A, G_ATOM3, ( p::rep_one_min_max< 0, 2, 'a' > ) ) \
+   A0( ROMM22_A, G_ATOM3, ( p::rep_one_min_max< 2, 2, 'a' > ) ) \
+   A0( ROMM00_A, G_ATOM3, ( p::rep_one_min_max< 0, 0, 'a' > ) ) \
+   A0( INT_U, G_CONTRIB, ( p::unsigned_rule ) ) \
+   A0( INT_S, G_CONTRIB, ( p::signed_rule ) ) \
+   A0( INT_MAX8, G_CONTRIB, ( p::maximum_rule< std::uint8_t > ) ) \
+   A0( INT_MAX300, G_CONTRIB, ( p::maximum_rule< std::uint16_t, 300 > ) ) \
+   A0( RAW, G_CONTRIB, ( raw_t ) ) \
+   A0( PRED_AND, G_CONTRIB, ( p::predicates_and< p::range< 'a', 'c' >, p::not_one< 'b' > > ) ) \
+   A0( PRED_NOT, G_CONTRIB, ( p::predicate_not< p::one< 'a' > > ) ) \
+   A0( PRED_OR, G_CONTRIB, ( p::predicates_or< p::one< 'a' >, p::one< 'c' > > ) ) \
+   T3( SEPARATED_SEQ, G_CONTRIB, w_separated_seq ) \
+   T3( IF_THEN_ELSE_THEN, G_CONTRIB, w_if_then_else_then ) \
+   B2( IF_THEN, G_CONTRIB, w_if_then ) \
    U1( STAR, G_CORE, w_star ) \
    U1( PLUS, G_CORE, w_plus ) \
    U1( OPT, G_CORE, w_opt ) \
@@ -888,7 +948,7 @@ namespace T
       int c04 = 0;
       std::string c04_msg;
       int c03 = 0;
-      std::string c03_msg;
+      std::string c03_msg, c03_hook;
       int c06 = 0;
       std::string c06_msg, c06_info;
       long rewinds_after_consume = 0;  // vacuity counter: failures under M=required after the cursor had moved
@@ -901,6 +961,7 @@ namespace T
          c02_msg.clear();
          c04_msg.clear();
          c03_msg.clear();
+         c03_hook.clear();
          c06_msg.clear();
          c06_info.clear();
       }
@@ -999,6 +1060,38 @@ namespace T
          return a.data;
    }
 
+   inline std::string short_type( std::string s )
+   {
+      for( const char* ns : { "tao::pegtl::internal::", "tao::pegtl::ascii::", "tao::pegtl::", "T::" } ) {
+         size_t q;
+         while( ( q = s.find( ns ) ) != std::string::npos ) s.erase( q, strlen( ns ) );
+      }
+      return s;
+   }
+   // stable name of the rule of a monitor frame: the table operator for node<I>, the (shortened) type otherwise
+   template< typename Rule >
+   std::string rule_name()
+   {
+      if constexpr( rid< Rule >::kind == RK_NODE )
+         return std::string( "table rule " ) + opinfo[ tab[ rid< Rule >::v ].op ].name;
+      else {
+         std::string s = short_type( std::string( p::demangle< Rule >() ) );
+         // node<2u> -> node: which table slot is irrelevant for the call site
+         for( size_t q = 0; ( q = s.find( "node<", q ) ) != std::string::npos; ) {
+            const size_t e = s.find( '>', q );
+            s.replace( q, e - q + 1, "node" );
+         }
+         return s;
+      }
+   }
+   inline std::string innermost_rule_name()
+   {
+      if( L.frames.empty() ) return "top level";
+      const Frame& f = L.frames.back();
+      if( f.kind == RK_NODE ) return std::string( "table rule " ) + opinfo[ tab[ f.rule ].op ].name;
+      return "internal rule";
+   }
+
    template< typename Rule, bool WithUnwind, bool AllEnabled >
    struct mon_base : p::normal< Rule >
    {
@@ -1053,11 +1146,11 @@ namespace T
          if( L.record_events ) L.ev.push_back( { E_ENTER, int16_t( rid< Rule >::v ), uint8_t( rid< Rule >::kind ), uint8_t( enable ), uint8_t( A == p::apply_mode::action ), uint8_t( M == p::rewind_mode::required ), int32_t( b - g_begin ), 0 } );
          if( int( A == p::apply_mode::action ) != expected_A() ) {
             ++L.c04;
-            L.c04_msg = "apply_mode seen by " + std::string( p::demangle< Rule >() ) + " differs from the lexically expected one";
+            L.c04_msg = "apply_mode differs from the lexically expected one|" + rule_name< Rule >();
          }
          if( b > in.end() ) {
             ++L.c03;
-            L.c03_msg = "cursor beyond end on entry of " + std::string( p::demangle< Rule >() );
+            L.c03_msg = "cursor beyond end on entry|" + rule_name< Rule >();
          }
          if( check_positions ) position_check( in, "entry", std::string( p::demangle< Rule >() ) );
          L.frames.push_back( { rid< Rule >::v, rid< Rule >::kind, b, uint8_t( A == p::apply_mode::action ), uint8_t( M == p::rewind_mode::required ), L.acts.size(), child_mode( rid< Rule >::kind, rid< Rule >::v ) } );
@@ -1073,14 +1166,16 @@ namespace T
                }
             }
          } eg{ in };
+         const int hook_before = verif_c03;
          const bool r = p::normal< Rule >::template match< A, M, Action, Control >( in, st... );
          eg.done = true;
+         if( verif_c03 != hook_before && L.c03_hook.empty() ) L.c03_hook = std::string( verif_c03_what ) + "|" + rule_name< Rule >();
          const Frame fr = L.frames.back();
          L.frames.pop_back();
          log( r ? E_EXIT_T : E_EXIT_F, in );
          if( in.current() > in.end() ) {
             ++L.c03;
-            L.c03_msg = "cursor beyond end on exit of " + std::string( p::demangle< Rule >() );
+            L.c03_msg = "cursor beyond end on exit|" + rule_name< Rule >();
          }
          if( check_positions ) position_check( in, "exit", std::string( p::demangle< Rule >() ) );
          if( !r ) {
@@ -1088,17 +1183,17 @@ namespace T
             if( M == p::rewind_mode::required ) {
                if( !same_iter< In >( in.inputerator(), saved ) ) {
                   ++L.c02;
-                  L.c02_msg = "local failure with rewind_mode::required left the cursor moved: " + std::string( p::demangle< Rule >() );
+                  if( L.c02 == 1 ) L.c02_msg = "local failure with rewind_mode::required left the cursor moved|" + rule_name< Rule >();
                }
             }
          }
          else if( in.current() < b ) {
             ++L.c02;
-            L.c02_msg = "cursor moved backwards on success: " + std::string( p::demangle< Rule >() );
+            if( L.c02 == 1 ) L.c02_msg = "cursor moved backwards on success|" + rule_name< Rule >();
          }
          if( ( rid< Rule >::kind == RK_AT || rid< Rule >::kind == RK_NOT_AT || ( rid< Rule >::kind == RK_NODE && op_is_lookahead( tab[ fr.rule ].op ) ) ) && !same_iter< In >( in.inputerator(), saved ) ) {
             ++L.c02;
-            L.c02_msg = "look-ahead rule moved the cursor: " + std::string( p::demangle< Rule >() );
+            if( L.c02 == 1 ) L.c02_msg = "look-ahead rule moved the cursor|" + rule_name< Rule >();
          }
          return r;
       }
